@@ -342,11 +342,13 @@ class BaseGroupBy(ABC):
         """
         if isinstance(func, str):
             if hasattr(self, func):
-                return getattr(self, func)()
+                if mask is None:
+                    return getattr(self, func)()
+                return getattr(self, func)(mask=mask)
             else:
-                result = self._grouper.agg(self._obj, func)
+                result = self._grouper.agg(self._values_to_group, func, mask=mask)
         else:
-            result = self._grouper.apply(self._obj, func)
+            result = self._grouper.apply(self._values_to_group, func, mask=mask)
 
         return result
 
